@@ -10,6 +10,7 @@ import (
 	"hash/crc32"
 	"hash/fnv"
 	"os"
+	"sync"
 
 	"github.com/wolimst/lib-secs2-hsms-go/pkg/ast"
 	"github.com/wolimst/lib-secs2-hsms-go/pkg/parser/hsms"
@@ -321,6 +322,56 @@ func driverCtrl(c *Ctx) {
 			ci++
 		}
 	}
+	// (c'') control messages of all kinds decoded by four goroutines at once, after decodes that were refused inside the
+	// ast package: every one comes back as itself (the first that does not is recorded, else a sample)
+	if c.want(ci) {
+		for _, p := range [][]byte{{0, 0, 0, 10, 0, 1, 0x81, 2, 0, 0, 0, 0, 0, 1}, {0, 0, 0, 16, 0, 1, 1, 1, 0, 0, 0, 0, 0, 1, 0x91, 0x04, 0x7F, 0xC0, 0, 0}} {
+			try(func() { hsms.Parse(p) })
+			try(func() { hsms.Parse(p) })
+		}
+		var mu sync.Mutex
+		var bad J
+		var wg sync.WaitGroup
+		for w := 0; w < 4; w++ {
+			wg.Add(1)
+			go func(w int) {
+				defer wg.Done()
+				for n := 0; n < 400; n++ {
+					kind := ctrlKinds[(n+w)%len(ctrlKinds)]
+					m := mkCtrl(kind, uint16(w*1000+n), []byte{byte(w), byte(n >> 8), byte(n), 0x5A}, byte(n))
+					want := m.ToBytes()
+					var got ast.HSMSMessage
+					var ok bool
+					p, _ := try(func() { got, ok = hsms.Parse(exact(want)) })
+					if p || !ok || got == nil || string(got.ToBytes()) != string(want) || typeOf(got) != kind {
+						mu.Lock()
+						if bad == nil {
+							h, _ := ast.VerifControlHeader(m)
+							bad = J{"bytes": bytesJ(want), "ok": ok && !p, "pok": ok && !p, "panic": p, "hdrs": []interface{}{}, "same2": false, "bytes2": []int{},
+								"psame2": false, "pbytes2": []int{}, "msg2": projHSMS(got), "type2": "", "hdr": bytesJ(h), "type": kind, "again": bytesJ(want)}
+							if got != nil {
+								bad["type2"] = typeOf(got)
+							}
+						}
+						mu.Unlock()
+						return
+					}
+				}
+			}(w)
+		}
+		wg.Wait()
+		if bad == nil {
+			m := mkCtrl("select.req", 7, []byte{1, 2, 3, 4}, 0)
+			bad = decodeEvent(m.ToBytes())
+			h, _ := ast.VerifControlHeader(m)
+			bad["hdr"], bad["type"], bad["again"] = bytesJ(h), typeOf(m), bytesJ(m.ToBytes())
+		}
+		bad["ev"] = "ctrlraw"
+		bad["concurrent"] = true
+		c.emit(ci, bad)
+		c.count("ctrl.concurrent")
+	}
+	ci++
 	// (d) raw headers: construction, type, bytes, decode
 	for k := 0; k < c.N; k++ {
 		if c.want(ci) {
